@@ -1,0 +1,77 @@
+//go:build verif
+
+package gojq
+
+import "reflect"
+
+// Verification hooks for property C02 (paths and update operators). This file is
+// compiled only with the build tag "verif"; it only exposes unexported natives.
+
+// VerifAlloc is the allocator threaded through setpath/delpaths by the compiled
+// `_assign` and `_modify` reductions.
+type VerifAlloc struct{ a allocator }
+
+// VerifNewAlloc returns a fresh allocator (what funcAllocator returns).
+func VerifNewAlloc() *VerifAlloc { return &VerifAlloc{allocator{}} }
+
+// VerifUpdate is `update(v, path, n, a)`; del=true passes the deletion marker
+// (struct{}{}) for n. A nil receiver passes the nil allocator (funcSetpath).
+func (a *VerifAlloc) VerifUpdate(v any, path []any, n any, del bool) (any, error) {
+	var al allocator
+	if a != nil {
+		al = a.a
+	}
+	if del {
+		n = struct{}{}
+	}
+	return update(v, path, n, al)
+}
+
+// VerifSetpath is funcSetpathWithAllocator.
+func (a *VerifAlloc) VerifSetpath(v, p, n any) any {
+	return funcSetpathWithAllocator(v, []any{p, n, a.a})
+}
+
+// VerifDelpaths is funcDelpathsWithAllocator.
+func (a *VerifAlloc) VerifDelpaths(v, p any) any {
+	return funcDelpathsWithAllocator(v, []any{p, a.a})
+}
+
+// VerifDeleteEmpty is deleteEmpty (called through reflection so that the hook does not depend on
+// whether deleteEmpty takes the allocator as a second argument).
+func (a *VerifAlloc) VerifDeleteEmpty(v any) any {
+	f := reflect.ValueOf(deleteEmpty)
+	args := []reflect.Value{reflect.ValueOf(&v).Elem()}
+	if f.Type().NumIn() == 2 {
+		var al allocator
+		if a != nil {
+			al = a.a
+		}
+		args = append(args, reflect.ValueOf(al))
+	}
+	return f.Call(args)[0].Interface()
+}
+
+// VerifAllocated is allocator.allocated.
+func (a *VerifAlloc) VerifAllocated(v any) bool { return a.a.allocated(v) }
+
+// VerifAllocSize is the number of addresses recorded by the allocator.
+func (a *VerifAlloc) VerifAllocSize() int { return len(a.a) }
+
+// VerifIsDelMarker reports whether v is the deletion marker left by update.
+func VerifIsDelMarker(v any) bool { return v == struct{}{} }
+
+// VerifPointer is the identity allocator.allocated and pathIntact compare.
+func VerifPointer(v any) uintptr {
+	switch v.(type) {
+	case []any, map[string]any:
+		return reflect.ValueOf(v).Pointer()
+	}
+	return 0
+}
+
+// VerifSetpathPlain, VerifDelpathsPlain, VerifGetpath are the public natives
+// setpath/2, delpaths/1, getpath/1.
+func VerifSetpathPlain(v, p, n any) any { return funcSetpath(v, p, n) }
+func VerifDelpathsPlain(v, p any) any   { return funcDelpaths(v, p) }
+func VerifGetpath(v, p any) any         { return funcGetpath(v, p) }
